@@ -465,11 +465,23 @@ def chunk_loop(ctx, func):
         raise AnalysisError(f'{func.key}: inner parse loop is not inside a refill loop')
     # parse statement: the call through an alias of <deserializer>.read_tx*
     parse = None
+    other = None
     for s in walk_own(inner):
         if isinstance(s, ast.Call):
             nm = q.callee_name(ctx, func, s)
             if nm.endswith('.read_tx') or nm.endswith('.read_tx_and_hash'):
                 parse = s
+            elif '.' in nm and not nm.startswith('self.') and other is None:
+                # a method of some local object called once per inner iteration: the candidate parse of another spelling
+                other = s
+    if parse is None and other is not None:
+        # SIB: the pass uses something other than the transaction reader; the rules below judge it by the same standard, and
+        # the name is reported (the two passes must find identical boundaries)
+        parse = other
+        ctx.bad('C13.SIBLING', ctx.key(func, q.stmt(other), 'same transaction reader in both passes'),
+                f'{func.qual} advances with `{q.callee_name(ctx, func, other)}` instead of the transaction reader (read_tx / '
+                'read_tx_and_hash): a second parser finds boundaries by its own rules - where it "succeeds" on a buffer that ends '
+                'inside a transaction the recorded boundary lies past the buffer', loc=ctx.loc(func, other))
     if parse is None:
         raise AnalysisError(f'{func.key}: parse call not found in the inner loop')
     deser = q.callee_name(ctx, func, parse).rsplit('.', 1)[0]
@@ -616,6 +628,20 @@ def rule_chunk_loops(ctx, rd):
                   'the deserializer is not rebuilt at cursor 0 from the refilled buffer before the next parse',
                   loc=ctx.loc(f, drop))
         n += 1
+        if isinstance(cl['parse'].func, ast.Name):
+            al = cl['parse'].func.id
+            adefs = [s_ for s_ in q.assigns(ctx, f, al)]
+            rebuilds_ = [s_ for s_ in f.own_nodes() if isinstance(s_, ast.Assign) and norm(s_.targets[0]) == cl['deser']
+                         and q.in_body(s_, cl['outer'].body)]
+            stale = None
+            for rb_ in rebuilds_:
+                stale = stale or pr.path_avoiding(cfg, [cfg.node(rb_)], [cfg.node(pstmt)], {cfg.node(a_) for a_ in adefs})
+            ctx.check(stale is None and bool(adefs), 'C13.REFILL', ctx.key(f, pstmt, f'{al} bound to the current deserializer'),
+                      f'the reader alias `{al}` is re-taken from the rebuilt deserializer before the next parse',
+                      f'`{al}` stays bound to the deserializer of an earlier buffer after `{cl["deser"]}` is rebuilt: it keeps parsing the '
+                      'old buffer while cursor and boundaries are taken from the new one - no progress after the first refill',
+                      witness=cfg.describe_path(stale) if stale else None, loc=ctx.loc(f, pstmt))
+            n += 1
         cl['drop'], cl['cur'] = drop, cur
         if qual.endswith('_chunk_offsets'):
             n += rule_offsets(ctx, f, cfg, cl)
